@@ -384,7 +384,7 @@ theorem inLoop_stops (inp : Input) (fuel rbp : Nat) (lhs : PNode) (t' : Token) (
     simp [this]
 
 theorem parseExpr_step (inp : Input) (fuel rbp : Nat) (p p1 : PState) (hne : p.tok.type ≠ .eof)
-    (ha : advance inp false p = .ok p1) :
+    (ha : advance inp (opensOperand p.tok.type) p = .ok p1) :
     parseExpr inp (fuel + 1) rbp p =
       (match nud inp (parseExpr inp fuel) p.tok p1 with
        | .ok (lhs, p2) => ledLoop inp (parseExpr inp fuel) (inp.size + 2) rbp lhs p2
@@ -422,9 +422,9 @@ theorem parse_into_loop (inp : Input) (e : E) : WF inp e → ∀ (fuel rbp : Nat
     have hpt : p.tok = t := hreads.1
     have hne : p.tok.type ≠ .eof := by
       rw [hpt]; exact (nud_ok_starter inp (fun _ _ => .error default) t default _ (hwf _ _)).1
-    obtain ⟨p1, ha, hr1⟩ := reads_advance inp false p t t' rest hreads
+    obtain ⟨p1, ha, hr1⟩ := reads_advance inp (opensOperand p.tok.type) p t t' rest hreads
     rw [parseExpr_step inp fuel rbp p p1 hne ha, hpt, hwf _ p1]
-    exact ⟨inp.size + 2, p1, rfl, hr1, R_le inp p1, by have := (advance_R inp false p p1 ha).2 hne; omega⟩
+    exact ⟨inp.size + 2, p1, rfl, hr1, R_le inp p1, by have := (advance_R inp (opensOperand p.tok.type) p p1 ha).2 hne; omega⟩
   | paren o c e ih =>
     intro hwf fuel rbp p t' rest _ hreads _ hfuel
     obtain ⟨ho, hc, hwe⟩ := hwf
@@ -433,8 +433,8 @@ theorem parse_into_loop (inp : Input) (e : E) : WF inp e → ∀ (fuel rbp : Nat
     have hne : p.tok.type ≠ .eof := by rw [hpt, ho]; simp
     have hreads' : Reads inp p (o :: h0 :: (tl ++ c :: t' :: rest)) := by
       simpa [toks, htoks] using hreads
-    obtain ⟨p1, ha, hr1⟩ := reads_advance inp false p o h0 _ hreads'
-    have hd1 := (advance_R inp false p p1 ha).2 hne
+    obtain ⟨p1, ha, hr1⟩ := reads_advance inp (opensOperand p.tok.type) p o h0 _ hreads'
+    have hd1 := (advance_R inp (opensOperand p.tok.type) p p1 ha).2 hne
     have hr1' : Reads inp p1 (toks e ++ c :: (t' :: rest)) := by simpa [htoks] using hr1
     -- the inner expression, read completely: it stops at the closing parenthesis
     have hbc : bp Tok.parenClose = 0 := by decide
@@ -466,8 +466,8 @@ theorem parse_into_loop (inp : Input) (e : E) : WF inp e → ∀ (fuel rbp : Nat
     have hpt : p.tok = m := hreads.1
     have hne : p.tok.type ≠ .eof := by rw [hpt, hm]; simp
     have hreads' : Reads inp p (m :: h0 :: (tl ++ t' :: rest)) := by simpa [toks, htoks] using hreads
-    obtain ⟨p1, ha, hr1⟩ := reads_advance inp false p m h0 _ hreads'
-    have hd1 := (advance_R inp false p p1 ha).2 hne
+    obtain ⟨p1, ha, hr1⟩ := reads_advance inp (opensOperand p.tok.type) p m h0 _ hreads'
+    have hd1 := (advance_R inp (opensOperand p.tok.type) p p1 ha).2 hne
     have hr1' : Reads inp p1 (toks e ++ t' :: rest) := by simpa [htoks] using hr1
     cases fuel with
     | zero => omega
@@ -604,8 +604,8 @@ theorem parse_into_loop (inp : Input) (e : E) : WF inp e → ∀ (fuel rbp : Nat
     have hpt : p.tok = v := hreads.1
     have hne : p.tok.type ≠ .eof := by rw [hpt, hv]; simp
     have hreads' : Reads inp p (v :: o :: (h0 :: (tl ++ t' :: rest))) := by simpa [toks, htoks] using hreads
-    obtain ⟨p1, ha, hr1⟩ := reads_advance inp false p v o _ hreads'
-    have hd1 := (advance_R inp false p p1 ha).2 hne
+    obtain ⟨p1, ha, hr1⟩ := reads_advance inp (opensOperand p.tok.type) p v o _ hreads'
+    have hd1 := (advance_R inp (opensOperand p.tok.type) p p1 ha).2 hne
     have hp1 : p1.tok = o := hr1.1
     have hne1 : p1.tok.type ≠ .eof := by rw [hp1, ho]; simp
     obtain ⟨p2, ha2, hr2⟩ := reads_advance inp true p1 o h0 _ hr1
